@@ -1,25 +1,25 @@
 CONSTANTS
-  Procs = {1, 2}
+  Procs = {1}
   Clients = {"c1"}
   Forms = {"v4"}
-  CCs = {"a", "b"}
-  SVs = {"bare", "good"}
+  CCs = {}
+  SVs = {}
   Shorts = {}
   Protos = {"udp", "tcp"}
-  Questions = {"fresh"}
-  Entries = {"msg"}
+  Questions = {"big1"}
+  Entries = {"msg", "wire", "inline"}
   Exempts = {}
   Odds = {FALSE}
-  Burst = 2
+  Burst = 3
   StoreCap = 2
-  EntryBurst = 0
-  BigQs = {}
-  MaxOps = 3
+  EntryBurst = 1
+  BigQs = {"big1"}
+  MaxOps = 4
   MaxPend = 1
   MaxAge = 2
-  TickSet = {}
+  TickSet = {1}
   CleanSet = {}
-  Atomic = "free"
+  Atomic = "call"
   KeyByForm = TRUE
   ChargeOnReplay = FALSE
   EchoCached = FALSE
